@@ -22,7 +22,7 @@ from .common import Evidence, Verdicts, run_tlc, pmap, seed
 
 PROP = "C08"
 BLOCK_ALPHA = ['"', "\\", "\n", "\r", " ", "\t", "a", "\x0c", "\x85", " ", "\x0b", "\x1c"]
-QUOTED_ALPHA = ['"', "\\", "/", "b", "u", "\n", "\r", "\x00", "\x1f", "\x7f", "\x9f", " ", "a", "\U0001f600"]
+QUOTED_ALPHA = ['"', "\\", "/", "b", "u", "\n", "\r", "\x00", "\x1f", "\x7f", "\x9f", " ", "a", "\U0001f600", "{", "}", "\t"]
 EOFC = [1114112]
 OPT = {"variable_definitions", "directives", "arguments", "interfaces", "fields", "values", "types", "operation_types"}
 
